@@ -18,4 +18,37 @@ def multLoops (k : Sym) : Local
         (substL i (.binop .div (.read k []) (.lit (.int c))) b)) par :: r)
   | _ => none
 
+/-! ### lift_scope (`DoLiftScope`): the shapes other than for-in-for (= `reorderLoops`)
+
+  Mirrors the Python literally, including what it does when a branch is empty: the wrapper is
+  applied to the inner `orelse` only `if inner_s.orelse:`. -/
+
+/-- `if` directly in the `then` block of an `if`:
+    `if a: (if b: A else: B) else: C`  ↦  `if b: (if a: A else: C) else: (if a: B else: C)`,
+    the new `else` block being EMPTY when `B` is empty -/
+def liftIfThen : Local
+  | .ite a [.ite b A B] C :: r =>
+    some (.ite b [.ite a A C] (if B.isEmpty then [] else [.ite a B C]) :: r)
+  | _ => none
+
+/-- `if` directly in the `else` block of an `if`:
+    `if a: A else: (if b: B else: C)`  ↦  `if b: (if a: A else: B) else: (if a: A else: C)`,
+    the new `else` block being EMPTY when `C` is empty -/
+def liftIfElse : Local
+  | .ite a A [.ite b B C] :: r =>
+    some (.ite b [.ite a A B] (if C.isEmpty then [] else [.ite a A C]) :: r)
+  | _ => none
+
+/-- `for` directly in an `if` without `else`:  `if c: for i: A`  ↦  `for i: if c: A` -/
+def liftForOutOfIf : Local
+  | .ite c [.loop i lo hi A par] [] :: r => some (.loop i lo hi [.ite c A []] par :: r)
+  | _ => none
+
+/-- `if` directly in a `for`:  `for i: (if c: A else: B)`  ↦  `if c: (for i: A) else: (for i: B)`,
+    no `else` block when `B` is empty -/
+def liftIfOutOfLoop : Local
+  | .loop i lo hi [.ite c A B] par :: r =>
+    some (.ite c [.loop i lo hi A par] (if B.isEmpty then [] else [.loop i lo hi B par]) :: r)
+  | _ => none
+
 end Exo.Rw
